@@ -71,6 +71,10 @@ pub struct TermsRunStats {
     pub desc_nodes: u64,
     pub near_miss_labels: Vec<&'static str>,
     pub aborted: bool,
+    pub coop_runs: u64,
+    pub coop_yields: u64,
+    pub coop_switches: u64,
+    pub coop_stalled: u64,
 }
 
 pub struct TermsReport {
@@ -275,6 +279,7 @@ pub fn run_terms(ch: &mut Choices, verbose: bool) -> TermsReport {
             unordered_bias: ch.choose(4),
             exotic: false,
             stop_den: 8,
+            cjk_names: false,
         }
     } else if wide {
         GenParams {
@@ -284,6 +289,7 @@ pub fn run_terms(ch: &mut Choices, verbose: bool) -> TermsReport {
             unordered_bias: ch.choose(4),
             exotic: false,
             stop_den: 3,
+            cjk_names: false,
         }
     } else {
         GenParams {
@@ -293,6 +299,7 @@ pub fn run_terms(ch: &mut Choices, verbose: bool) -> TermsReport {
             unordered_bias: ch.choose(4),
             exotic: ch.chance(1, 5),
             stop_den: 3,
+            cjk_names: false,
         }
     };
     // caller threads: in "hop" runs some values are built, hashed or compared on another thread
@@ -300,6 +307,10 @@ pub fn run_terms(ch: &mut Choices, verbose: bool) -> TermsReport {
     let hops = ch.chance(1, 5);
     // mutation histories: hash / store a value, change it in place, compare with a fresh build
     let mutate_phase = ch.chance(1, 3);
+    // concurrent callers under the cooperative scheduler (hooked build only)
+    let coop_phase = ch.chance(1, 40) && HOOKED;
+    let coop_seed = ch.bits() as u64;
+    let churn: u32 = if ch.chance(1, 12) { [200u32, 1500, 6000][ch.choose(3) as usize] } else { 0 };
     let rp = RealiseParams {
         reorder: !ch.chance(1, 10),
         duplicates: ch.chance(1, 2),
@@ -457,6 +468,41 @@ pub fn run_terms(ch: &mut Choices, verbose: bool) -> TermsReport {
     }
     stats.rstats = rstats;
 
+    // a table filled NOW (right after building) and probed at the very end of the run, after
+    // everything else the run does in between (vocabulary churn, thread hops, mutations of clones,
+    // thousands of other hashes): a stored key must still be found by an equal term later
+    let early_table: Option<(HashSet<Term, SipBuild>, HashMap<Term, usize, FnvBuild>)> = if stats.aborted {
+        None
+    } else {
+        guarded(|| {
+            let mut set: HashSet<Term, SipBuild> = HashSet::with_hasher(SipBuild);
+            let mut map: HashMap<Term, usize, FnvBuild> = HashMap::with_hasher(FnvBuild);
+            for (i, e) in pool.iter().enumerate() {
+                set.insert(e.term.clone());
+                map.entry(e.term.clone()).or_insert(i);
+            }
+            (set, map)
+        })
+    };
+    if !stats.aborted && churn > 0 {
+        // vocabulary churn: many never-seen atom names are hashed and stored between building the
+        // values and asking about them (anything keyed by names that is bounded, evicted or
+        // renumbered moves on)
+        let _ = guarded(|| {
+            let mut scratch: HashSet<Term, SipBuild> = HashSet::with_hasher(SipBuild);
+            for i in 0..churn {
+                let t = match i % 3 {
+                    0 => Term::new_word(format!("v{outer_key:x}n{i}")),
+                    1 => Term::new_variable_independent(format!("v{outer_key:x}n{i}")),
+                    _ => Term::new_operator(format!("v{outer_key:x}n{i}")),
+                };
+                scratch.insert(t);
+            }
+            std::hint::black_box(scratch.len())
+        });
+        stats.rstats.vocabulary_churn += churn as u64;
+        log.line(|| format!("vocabulary churn: {churn} fresh atom names hashed and stored"));
+    }
     if !stats.aborted {
         // ---- invariants ----
         let checked = guarded(|| {
@@ -687,6 +733,69 @@ pub fn run_terms(ch: &mut Choices, verbose: bool) -> TermsReport {
                         }),
                     }
                 }
+                // ---- concurrent callers: several threads hash and compare the shared values at the
+                //      same time; the cooperative scheduler switches between them inside
+                //      `Hash for Term` / `PartialEq for Term` (yield sites 4, 5) ----
+                if coop_phase && n >= 2 {
+                    let t_n = 2 + (coop_seed % 3) as usize;
+                    let coop = crate::coop::Coop::new(t_n, coop_seed, [4u64, 16, 64][(coop_seed >> 8) as usize % 3]);
+                    let pool_ref = &pool;
+                    let bodies: Vec<Box<dyn FnOnce() -> (Vec<[u64; 3]>, Vec<Vec<bool>>) + Send + '_>> = (0..t_n)
+                        .map(|t| {
+                            Box::new(move || {
+                                // every thread asks everything, starting at a different place
+                                let mut hashes = vec![[0u64; 3]; n];
+                                let mut eqs = vec![vec![false; n]; n];
+                                for step in 0..n {
+                                    let i = (step + t) % n;
+                                    hashes[i] = hash3(&pool_ref[i].term, outer_key);
+                                    for j in 0..n {
+                                        eqs[i][j] = pool_ref[i].term == pool_ref[j].term;
+                                    }
+                                }
+                                (hashes, eqs)
+                            }) as Box<dyn FnOnce() -> (Vec<[u64; 3]>, Vec<Vec<bool>>) + Send + '_>
+                        })
+                        .collect();
+                    let results = crate::coop::run_threads(&coop, 0b110000, bodies);
+                    let cs = coop.stats();
+                    stats.coop_runs += 1;
+                    stats.coop_yields += cs.yields;
+                    stats.coop_switches += cs.switches;
+                    stats.coop_stalled += cs.stalled as u64;
+                    log.d.u64(cs.yields);
+                    log.d.u64(cs.switches);
+                    log.line(|| format!("concurrent callers: {t_n} threads, {} yield points in Hash/PartialEq, {} switches, stalled={}", cs.yields, cs.switches, cs.stalled));
+                    if !cs.stalled {
+                        for (t, r) in results.iter().enumerate() {
+                            match r {
+                                None => violations.push(Violation { prop: "C06", kind: "panic-while-comparing-or-hashing".into(), message: format!("caller thread {t} panicked while comparing / hashing concurrently") }),
+                                Some((hashes, eqs)) => {
+                                    stats.hash_evals += 3 * n as u64;
+                                    stats.eq_evals += (n * n) as u64;
+                                    for i in 0..n {
+                                        let here = hash3(&pool[i].term, outer_key);
+                                        if here != hashes[i] && !violations.iter().any(|v| v.kind == "hash-depends-on-concurrent-callers") {
+                                            let msg = format!("with {t_n} threads hashing at the same time, thread {t} got another hash for {} `{}` than a caller on its own", pool[i].label, show_physical(&pool[i].term));
+                                            log.line(|| format!("!! C07 hash-depends-on-concurrent-callers: {msg}"));
+                                            violations.push(Violation { prop: "C07", kind: "hash-depends-on-concurrent-callers".into(), message: msg });
+                                        }
+                                        for j in 0..n {
+                                            if eqs[i][j] != matrix[i][j] && !violations.iter().any(|v| v.kind == "eq-depends-on-concurrent-callers") {
+                                                let msg = format!(
+                                                    "with {t_n} threads comparing at the same time, thread {t} got a==b {} where a caller on its own gets {}: a={} `{}` b={} `{}`",
+                                                    eqs[i][j], matrix[i][j], pool[i].label, show_physical(&pool[i].term), pool[j].label, show_physical(&pool[j].term)
+                                                );
+                                                log.line(|| format!("!! C06 eq-depends-on-concurrent-callers: {msg}"));
+                                                violations.push(Violation { prop: "C06", kind: "eq-depends-on-concurrent-callers".into(), message: msg });
+                                            }
+                                        }
+                                    }
+                                }
+                            }
+                        }
+                    }
+                }
                 // ---- derived equalities: Sentence / Task / Narsese around the terms ----
                 let derived = guarded(|| {
                     let mut out: Vec<Violation> = vec![];
@@ -753,6 +862,37 @@ pub fn run_terms(ch: &mut Choices, verbose: bool) -> TermsReport {
             }
         }
 
+        // ---- the table filled at the beginning of the run, probed now ----
+        if let Some((set, map)) = &early_table {
+            let probe = guarded(|| {
+                let n = pool.len();
+                // only meaningful where == itself is right (otherwise it is C06's finding)
+                let eq_ok = (0..n).all(|i| (0..n).all(|j| (pool[i].term == pool[j].term) == (pool[i].r == pool[j].r)));
+                let mut bad: Option<String> = None;
+                if eq_ok {
+                    for e in pool.iter() {
+                        let in_set = set.contains(&e.term);
+                        let in_map = map.get(&e.term).map(|i| pool[*i].r == e.r);
+                        if !in_set || in_map != Some(true) {
+                            bad.get_or_insert(format!(
+                                "a HashSet / HashMap filled with the pool values at the beginning of the run no longer finds {} `{}` at its end (set: {in_set}, map: {in_map:?})",
+                                e.label,
+                                show_physical(&e.term)
+                            ));
+                        }
+                    }
+                }
+                (bad, n as u64)
+            });
+            if let Some((bad, n)) = probe {
+                stats.container_ops += 2 * n;
+                log.d.u64(bad.is_some() as u64);
+                if let Some(msg) = bad {
+                    log.line(|| format!("!! C07 key-stored-earlier-not-found-later: {msg}"));
+                    violations.push(Violation { prop: "C07", kind: "key-stored-earlier-not-found-later".into(), message: msg });
+                }
+            }
+        }
         // ---- reach measures ----
         let n = pool.len();
         let mut layouts: Vec<u64> = pool.iter().map(|e| e.layout).collect();
